@@ -162,6 +162,7 @@ func cmdCheck(args []string) int {
 		r := reports[id]
 		if *tier == "thorough" && !*noSelf {
 			runSelftests(r, id, *repo, *verif)
+			runNegativeSelftests(r, id, *repo, *verif)
 		}
 		if *explain != "" {
 			for _, o := range r.Obls {
